@@ -128,10 +128,6 @@ structure CalleeEntry (s : St) (nargs : Nat) (kind : Callee) (c : St) : Prop whe
   args : abs c = calleeArgs (abs s) nargs kind
   below : ∀ j, j < s.reg.top - nargs → c.reg.array[j]? = s.reg.array[j]?
 
-theorem resize_self (l : List OVal) : StackSpec.resize l l.length = l := by
-  unfold StackSpec.resize
-  simp
-
 theorem regInsert_eq {r : Reg} {v : Slot} {reg : Nat} (h : reg ≤ r.top) :
     regInsert r v (reg : Int) = (do
       let r1 ← insertLoop r reg (r.top - reg)
